@@ -339,6 +339,11 @@ func (ex *Exec) makeInterface(st *State, v Val, it types.Type) Val {
 		panic(unsupported("interior pointer boxed in interface"))
 	} else if len(l.Leaves) == 0 {
 		payload = IntC(0)
+	} else if len(l.Leaves) == 1 && (l.Leaves[0].Kind == LScalar || l.Leaves[0].Kind == LStr) {
+		// scalars are boxed by value: equal values give equal interface values, distinct values distinct ones
+		sk := sanitize(l.Leaves[0].S.key)
+		payload = App("box_"+sk, IntS, v.L[0])
+		ex.assume(st, Eq(App("unbox_"+sk, l.Leaves[0].S, payload), v.L[0]))
 	} else {
 		ref := st.newRef()
 		st.store(&Loc{RootT: v.T, Ref: ref, T: v.T}, v)
@@ -354,6 +359,9 @@ func (ex *Exec) unbox(st *State, iv Val, t types.Type) Val {
 	}
 	if len(l.Leaves) == 0 {
 		return Val{T: t}
+	}
+	if len(l.Leaves) == 1 && (l.Leaves[0].Kind == LScalar || l.Leaves[0].Kind == LStr) {
+		return scalar(t, App("unbox_"+sanitize(l.Leaves[0].S.key), l.Leaves[0].S, iv.L[1]))
 	}
 	r := st.load(&Loc{RootT: t, Ref: iv.L[1], T: t})
 	ex.refFacts(st, r)
@@ -395,59 +403,91 @@ func (ex *Exec) typeAssert(fr *Frame, st *State, x *ssa.TypeAssert) Val {
 	return res
 }
 
-// ---- maps: (domain, values per leaf, length) per (K,V) type pair, indexed by map ref
+// ---- maps: (domain, values per leaf, length) per (K,V) type pair, indexed by map ref, then by the key's
+// leaves (nested arrays, so struct and interface keys work).
 
-func mapKeys(t types.Type) (dom, ln string, vals []string, ks *Sort, vl *Layout) {
+type mapInfo struct {
+	dom, ln string
+	vals    []string
+	ks      []*Sort
+	vl      *Layout
+	kt      types.Type
+}
+
+func mapKeys(t types.Type) *mapInfo {
 	mt := t.Underlying().(*types.Map)
 	kl := layoutOf(mt.Key())
-	if len(kl.Leaves) != 1 {
-		if len(kl.Leaves) == 2 && kl.Leaves[0].Kind == LIfaceTag {
-			panic(unsupported("map with interface key " + t.String()))
-		}
-		panic(unsupported("map with composite key " + t.String()))
+	if len(kl.Leaves) == 0 {
+		panic(unsupported("map with empty key " + t.String()))
 	}
-	ks = kl.Leaves[0].S
-	vl = layoutOf(mt.Elem())
+	mi := &mapInfo{vl: layoutOf(mt.Elem()), kt: mt.Key()}
+	for _, lf := range kl.Leaves {
+		mi.ks = append(mi.ks, lf.S)
+	}
 	base := normKey(mt.Key()) + "=>" + normKey(mt.Elem())
-	dom = "D:" + base
-	ln = "N:" + base
-	for j, lf := range vl.Leaves {
-		vals = append(vals, fmt.Sprintf("V:%s#%d%s", base, j, lf.Path))
+	mi.dom = "D:" + base
+	mi.ln = "N:" + base
+	for j, lf := range mi.vl.Leaves {
+		mi.vals = append(mi.vals, fmt.Sprintf("V:%s#%d%s", base, j, lf.Path))
 	}
-	return
+	return mi
 }
+
+// nested array sort: k1 -> k2 -> ... -> elem
+func nestSort(ks []*Sort, elem *Sort) *Sort {
+	s := elem
+	for i := len(ks) - 1; i >= 0; i-- {
+		s = ArrS(ks[i], s)
+	}
+	return s
+}
+
+func selectN(a *Term, ks []*Term) *Term {
+	for _, k := range ks {
+		a = Select(a, k)
+	}
+	return a
+}
+
+func storeN(a *Term, ks []*Term, v *Term) *Term { return storeNested(a, ks, v) }
+
+func constN(ks []*Sort, elem *Term) *Term {
+	t := elem
+	for i := len(ks) - 1; i >= 0; i-- {
+		t = ConstArr(ArrS(ks[i], t.S), t)
+	}
+	return t
+}
+
+func (mi *mapInfo) domSort() *Sort          { return ArrS(IntS, nestSort(mi.ks, BoolS)) }
+func (mi *mapInfo) valSort(j int) *Sort     { return ArrS(IntS, nestSort(mi.ks, mi.vl.Leaves[j].S)) }
+func (mi *mapInfo) key(k Val) []*Term       { return k.L }
 
 func (ex *Exec) makeMap(st *State, t types.Type) Val {
 	ref := st.newRef()
-	dom, ln, vals, ks, vl := mapKeys(t)
-	st.set(dom, Store(st.get(dom, ArrS(IntS, ArrS(ks, BoolS))), ref, ConstArr(ArrS(ks, BoolS), False)))
-	st.set(ln, Store(st.get(ln, ArrS(IntS, BVS(64))), ref, BVI(0, 64)))
-	for j, k := range vals {
-		s := vl.Leaves[j].S
-		st.set(k, Store(st.get(k, ArrS(IntS, ArrS(ks, s))), ref, ConstArr(ArrS(ks, s), zeroOfSort(s))))
+	mi := mapKeys(t)
+	st.set(mi.dom, Store(st.get(mi.dom, mi.domSort()), ref, constN(mi.ks, False)))
+	st.set(mi.ln, Store(st.get(mi.ln, ArrS(IntS, BVS(64))), ref, BVI(0, 64)))
+	for j, k := range mi.vals {
+		s := mi.vl.Leaves[j].S
+		st.set(k, Store(st.get(k, mi.valSort(j)), ref, constN(mi.ks, zeroOfSort(s))))
 	}
 	return scalar(t, ref)
 }
 
-func (ex *Exec) mapDom(st *State, m Val) *Term {
-	dom, _, _, ks, _ := mapKeys(m.T)
-	return Select(st.get(dom, ArrS(IntS, ArrS(ks, BoolS))), m.Term())
-}
-
 func (ex *Exec) mapLen(st *State, m Val) *Term {
-	_, ln, _, _, _ := mapKeys(m.T)
-	l := Select(st.get(ln, ArrS(IntS, BVS(64))), m.Term())
-	return l
+	mi := mapKeys(m.T)
+	return Select(st.get(mi.ln, ArrS(IntS, BVS(64))), m.Term())
 }
 
-func (ex *Exec) mapGet(st *State, m Val, key *Term) (Val, *Term) {
-	dom, _, vals, ks, vl := mapKeys(m.T)
+func (ex *Exec) mapGet(st *State, m Val, key []*Term) (Val, *Term) {
+	mi := mapKeys(m.T)
 	mt := m.T.Underlying().(*types.Map)
-	in := Select(Select(st.get(dom, ArrS(IntS, ArrS(ks, BoolS))), m.Term()), key)
-	v := Val{T: mt.Elem(), L: make([]*Term, len(vals))}
-	for j, k := range vals {
-		s := vl.Leaves[j].S
-		raw := Select(Select(st.get(k, ArrS(IntS, ArrS(ks, s))), m.Term()), key)
+	in := selectN(Select(st.get(mi.dom, mi.domSort()), m.Term()), key)
+	v := Val{T: mt.Elem(), L: make([]*Term, len(mi.vals))}
+	for j, k := range mi.vals {
+		s := mi.vl.Leaves[j].S
+		raw := selectN(Select(st.get(k, mi.valSort(j)), m.Term()), key)
 		v.L[j] = Ite(in, raw, zeroOfSort(s))
 	}
 	return v, in
@@ -462,8 +502,10 @@ func (ex *Exec) lookup(fr *Frame, st *State, x *ssa.Lookup) Val {
 			And(BVCmp("bvsle", BVI(0, 64), idx), BVCmp("bvslt", idx, ex.strLen(st, xv.Term()))))
 		return scalar(x.Type(), App("strbyte", BVS(8), xv.Term(), idx))
 	}
-	kv := ex.val(fr, x.Index)
-	v, in := ex.mapGet(st, xv, kv.Term())
+	kv := ex.keyVal(st, ex.val(fr, x.Index), xv.T)
+	v, in := ex.mapGet(st, xv, kv.L)
+	in = And(in, Not(Eq(xv.Term(), IntC(0))))
+	v = iteVal(in, v, zeroVal(v.T))
 	ex.refFacts(st, v)
 	if x.CommaOk {
 		return Val{T: x.Type(), L: append(append([]*Term{}, v.L...), in)}
@@ -471,35 +513,47 @@ func (ex *Exec) lookup(fr *Frame, st *State, x *ssa.Lookup) Val {
 	return v
 }
 
+// keyVal adapts a key value to the map's key type (e.g. a concrete value used as an `any` key was boxed already).
+func (ex *Exec) keyVal(st *State, k Val, mt types.Type) Val {
+	kt := mt.Underlying().(*types.Map).Key()
+	if k.Const != nil {
+		return coerce(k, kt)
+	}
+	if len(k.L) != len(layoutOf(kt).Leaves) {
+		panic(unsupported(fmt.Sprintf("map key %s used for key type %s", k.T, kt)))
+	}
+	return k
+}
+
 func (ex *Exec) mapUpdate(fr *Frame, st *State, m, k, v Val, pos token.Pos) {
 	if ex.opts.CheckNil {
 		ex.oblige(fr, st, "safety", "safety:nilmap["+ex.srcAt(pos)+"]", pos, ex.srcAt(pos), Not(Eq(m.Term(), IntC(0))))
 	}
 	ex.ownStore(fr, st, Val{}, v, pos)
-	dom, ln, vals, ks, vl := mapKeys(m.T)
-	dArr := st.get(dom, ArrS(IntS, ArrS(ks, BoolS)))
+	mi := mapKeys(m.T)
+	k = ex.keyVal(st, k, m.T)
+	dArr := st.get(mi.dom, mi.domSort())
 	dIn := Select(dArr, m.Term())
-	was := Select(dIn, k.Term())
-	st.set(dom, Store(dArr, m.Term(), Store(dIn, k.Term(), True)))
-	lArr := st.get(ln, ArrS(IntS, BVS(64)))
+	was := selectN(dIn, k.L)
+	st.set(mi.dom, Store(dArr, m.Term(), storeN(dIn, k.L, True)))
+	lArr := st.get(mi.ln, ArrS(IntS, BVS(64)))
 	old := Select(lArr, m.Term())
-	st.set(ln, Store(lArr, m.Term(), Ite(was, old, BVBin("bvadd", old, BVI(1, 64)))))
-	for j, key := range vals {
-		s := vl.Leaves[j].S
-		a := st.get(key, ArrS(IntS, ArrS(ks, s)))
-		st.set(key, Store(a, m.Term(), Store(Select(a, m.Term()), k.Term(), v.L[j])))
+	st.set(mi.ln, Store(lArr, m.Term(), Ite(was, old, BVBin("bvadd", old, BVI(1, 64)))))
+	for j, key := range mi.vals {
+		a := st.get(key, mi.valSort(j))
+		st.set(key, Store(a, m.Term(), storeN(Select(a, m.Term()), k.L, v.L[j])))
 	}
 }
 
-func (ex *Exec) mapDelete(st *State, m Val, k *Term) {
-	dom, ln, _, ks, _ := mapKeys(m.T)
-	dArr := st.get(dom, ArrS(IntS, ArrS(ks, BoolS)))
+func (ex *Exec) mapDelete(st *State, m Val, k []*Term) {
+	mi := mapKeys(m.T)
+	dArr := st.get(mi.dom, mi.domSort())
 	dIn := Select(dArr, m.Term())
-	was := Select(dIn, k)
-	st.set(dom, Store(dArr, m.Term(), Store(dIn, k, False)))
-	lArr := st.get(ln, ArrS(IntS, BVS(64)))
+	was := selectN(dIn, k)
+	st.set(mi.dom, Store(dArr, m.Term(), storeN(dIn, k, False)))
+	lArr := st.get(mi.ln, ArrS(IntS, BVS(64)))
 	old := Select(lArr, m.Term())
-	st.set(ln, Store(lArr, m.Term(), Ite(was, BVBin("bvsub", old, BVI(1, 64)), old)))
+	st.set(mi.ln, Store(lArr, m.Term(), Ite(was, BVBin("bvsub", old, BVI(1, 64)), old)))
 }
 
 // mapNext: one step of a map iteration: yields an arbitrary key currently in the domain.
@@ -511,17 +565,23 @@ func (ex *Exec) mapNext(fr *Frame, st *State, x *ssa.Next) Val {
 	mu := mt.Underlying().(*types.Map)
 	k := freshVal(mu.Key(), "rangekey")
 	ok := FreshVar("rangeok", BoolS)
-	v, in := ex.mapGet(st, m, k.Term())
+	v, in := ex.mapGet(st, m, k.L)
 	ex.assume(st, Implies(ok, in))
 	ex.assume(st, Implies(ok, Not(Eq(m.Term(), IntC(0)))))
 	ex.refFacts(st, v)
 	r := Val{T: x.Type(), L: []*Term{ok}}
 	tup := x.Type().(*types.Tuple)
 	// tuple is (ok, k, v); unused components have invalid type
-	if tup.At(1).Type() != nil && len(layoutOf(tup.At(1).Type()).Leaves) > 0 {
+	valid := func(t types.Type) bool {
+		if b, ok := t.(*types.Basic); ok && b.Kind() == types.Invalid {
+			return false
+		}
+		return t != nil
+	}
+	if valid(tup.At(1).Type()) {
 		r.L = append(r.L, k.L...)
 	}
-	if tup.At(2).Type() != nil && len(layoutOf(tup.At(2).Type()).Leaves) > 0 {
+	if valid(tup.At(2).Type()) {
 		r.L = append(r.L, v.L...)
 	}
 	return r
